@@ -56,6 +56,8 @@ structure Stats where
   nonconf : Nat := 0         -- recorded traces whose environment part is not conformant (judged only up to that point)
   panics : Nat := 0
 
+def specProps : List String := ["C07", "C08", "C09", "C10", "C11", "C12", "C15"]
+
 def propNum (prop : String) : Nat := (prop.drop 1).toString.toNat!
 
 def nestingOf (toks : List String) : Nat × Bool := Id.run do
@@ -92,10 +94,20 @@ def judgeLine (prop : String) (line : String) (st : Stats) : IO Stats := do
       if m.panicked then st := { st with panics := st.panics + 1 }
       let p := propNum prop
       let vs := m.g.viols.filter (fun v => v.prop == p)
-      let bad := !vs.isEmpty || (p == 17 && m.panicked)
+      -- the functional specification of the operator (Spec.lean), on conformant traces in its domain
+      let specBad : Bool :=
+        if specProps.contains prop && m.envOk && m.shapeOk && !m.panicked then
+          match inst.spec with
+          | some f =>
+            let evs2 := rtoks.filterMap (parseEv (α := Int) (β := inst.β) String.toInt? inst.pb)
+            let tr := evs2.reverse
+            if evs2.length == rtoks.length && inst.specDomain tr then !(f tr) else false
+          | none => false
+        else false
+      let bad := !vs.isEmpty || (p == 17 && m.panicked) || specBad
       if bad then
         st := { st with flagged := st.flagged + 1 }
-        let what := if p == 17 then "C17:panic" else " ".intercalate (vs.reverse.map violTxt)
+        let what := if specBad then s!"{prop}:specViolated" else if p == 17 then "C17:panic" else " ".intercalate (vs.reverse.map violTxt)
         IO.println s!"FLAG {name} | {script} | {real} | {what}"
       return st
   | _ => if line.trimAscii.toString.isEmpty then return st else IO.println s!"BADLINE {line}"; return st
